@@ -123,6 +123,23 @@ pub fn gen_fracs(g: usize) -> Vec<u64> {
     c[..g].iter().map(|x| x.to_bits() & ((1u64 << 52) - 1)).collect()
 }
 
+/// A fixed Weyl (golden-ratio) sequence of 52-bit fractions: deterministic, seed-independent
+/// "generic" mantissas with no structure aligned to rounding boundaries.
+pub fn weyl_fracs(n: usize, stream: u64) -> Vec<u64> {
+    let mut v = Vec::with_capacity(n);
+    let mut x: u64 = 0x243F6A8885A308D3u64.wrapping_mul(2 * stream + 1);
+    for _ in 0..n {
+        x = x.wrapping_add(0x9E3779B97F4A7C15);
+        // one mixing round so that successive values do not differ by a constant
+        let mut z = x;
+        z = (z ^ (z >> 30)).wrapping_mul(0xBF58476D1CE4E5B9);
+        z = (z ^ (z >> 27)).wrapping_mul(0x94D049BB133111EB);
+        z ^= z >> 31;
+        v.push(z >> 12);
+    }
+    v
+}
+
 /// 2^e * (1 + frac/2^52) for a normal exponent, or None when out of the normal range.
 #[inline]
 pub fn mk_f64(neg: bool, e: i32, frac: u64) -> Option<f64> {
